@@ -70,6 +70,9 @@ type HeaderScanner struct {
 	nextNewLine int
 
 	initialized bool
+
+	// nb holds the un-folded copy of the current multi-line value
+	nb []byte
 }
 
 type HeaderValueScanner struct {
@@ -180,7 +183,8 @@ func (s *HeaderScanner) Next() bool {
 	}
 	s.Value = s.Value[:n]
 	if isMultiLineValue {
-		s.Value = normalizeHeaderValue(s.Value)
+		s.nb = normalizeHeaderValue(s.nb[:0], s.Value)
+		s.Value = s.nb
 	}
 	return true
 }
